@@ -182,13 +182,13 @@ package filesys
 //@   on_panic [nothing changed, lock released] unchanged()
 //@   ensures [every returned name is a file of the directory] forall j int :: 0 <= j && j < len(result) ==> has(fs.dirents, mkp(dir, result[j]))
 //@   ensures [every file of the directory is returned] forall q pathname :: has(fs.dirents, q) && q.dir == dir ==> exists i int :: result.off <= i && i < result.off + len(result) && elemat(result, i) == q.name
-//@   ensures [file system unchanged, lock released] held_w == old(held_w)
-//@   modifies held_w, didunlock
+//@   ensures [file system unchanged, lock released] held_w == old(held_w) && held_r == old(held_r)
+//@   modifies held_w, held_r, didunlock
 //@   loop 1 invariant [sound] forall j int :: 0 <= j && j < len(names) ==> has(fs.dirents, mkp(dir, names[j]))
 //@   loop 1 invariant [complete so far] forall q pathname :: has(fs.dirents, q) && q.dir == dir && !todo[q] ==> exists i int :: names.off <= i && i < names.off + len(names) && elemat(names, i) == q.name
 //@   loop 1 invariant [names is private storage] names.arr == 0 || fresh(names)
-//@   loop 1 invariant [nothing else touched] modifies_only(held_w)
-//@   loop 1 invariant [lock held] held_w == old(held_w)[&fs.m := true]
+//@   loop 1 invariant [nothing else touched] modifies_only(held_w, held_r)
+//@   loop 1 invariant [lock held, in either mode (List only reads)] (held_w == old(held_w)[&fs.m := true] && held_r == old(held_r)) || (held_r == old(held_r)[&fs.m := true] && held_w == old(held_w))
 
 // =====================================================================================
 // DirFs. Kernel ghost state (trusted POSIX model; each call atomic; one owner of the tree):
